@@ -270,3 +270,10 @@ def previous_row_recorded(O):
 def rows_by_name(O):
     from . import C05
     C05.run_layout(O, C05.Layout("exp in", ["exp", "in"], [1, 0]), 7, rep=rep())
+
+
+@obligation("C06/previous-vector-survives-faults", desc="next / handle_io store nothing into the iterator themselves (error arms "
+            "included): the remembered previous input vector, against which `changed` is computed, is the one get_row "
+            "recorded - also after a row whose driver call failed")
+def previous_survives(O):
+    dri.glue_keeps_state(O, rep())
